@@ -99,10 +99,22 @@ func newBuf(c int) (*bytes.Buffer, []byte, []byte) {
 		own := make([]byte, 3, 64)
 		copy(own, []byte{0xC1, 0xC2, 0xC3})
 		return bytes.NewBuffer(own), own[:cap(own)], []byte{0xC1, 0xC2, 0xC3}
+	case c <= -100:
+		// "slide" class: a 512-byte buffer of which all but 2 bytes have been consumed and whose spare tail is only
+		// r = -c-100 bytes: the next writes first fit, then make bytes.Buffer slide the unread bytes down inside the
+		// SAME backing array (capacity unchanged) — offsets and slices taken before that point go stale
+		r := -c - 100
+		b := bytes.NewBuffer(make([]byte, 0, 512))
+		b.Write(bytes.Repeat([]byte{0xD7}, 512-r))
+		b.Next(512 - r - 2)
+		return b, nil, []byte{0xD7, 0xD7}
 	default:
 		return bytes.NewBuffer(make([]byte, 0, c)), nil, nil
 	}
 }
+
+// slideClasses: spare tails of 5, 17 and 33 bytes (inside / just after the headers of the frame types).
+var slideClasses = []int{-105, -117, -133}
 
 func fieldRole(t *rm.Type, path string) string {
 	// path like ".MsgBodyLen" (top-level field)
